@@ -11,6 +11,7 @@ import (
 	"regexp"
 	"sort"
 	"strings"
+	"sync"
 	"syscall"
 	"time"
 )
@@ -23,6 +24,7 @@ type PhaseSpec struct {
 	SecondPass bool          // re-runs cases of another phase under a sanitizer: not added to the headline distinct count
 	Timeout    time.Duration // wall-clock watchdog (firing = inconclusive)
 	Env        []string
+	Shards     int // >1: the phase is run as this many concurrent child processes (--shard i/n), results merged
 }
 
 // CheckSpec is the registration record of one property's check.
@@ -103,20 +105,25 @@ func RunCheck(spec *CheckSpec, tier string, seed int64) int {
 		merged.Violations = append(merged.Violations, v)
 	}
 
-	for _, ph := range spec.Phases(tier) {
-		phaseNames = append(phaseNames, ph.Name)
-		out := filepath.Join(workDir, ph.Name+".result.json")
-		logPath := filepath.Join(workDir, ph.Name+".log")
-		os.Remove(out)
-		os.Remove(inflightPath(workDir, ph.Name))
-		raceGlob := filepath.Join(workDir, ph.Name+".race")
-		if old, _ := filepath.Glob(raceGlob + "*"); len(old) > 0 {
-			for _, f := range old {
-				os.Remove(f)
-			}
+	type childOut struct {
+		res      Result
+		err      error
+		timedOut bool
+		logTail  string
+		logPath  string
+		timeout  time.Duration
+		shard    int
+	}
+	runChild := func(ph PhaseSpec, shard, nshards int) childOut {
+		tag := ph.Name
+		if nshards > 1 {
+			tag = fmt.Sprintf("%s.%d", ph.Name, shard)
 		}
+		out := filepath.Join(workDir, tag+".result.json")
+		logPath := filepath.Join(workDir, tag+".log")
+		os.Remove(out)
 		bin := binFor(ph.Flavour)
-		args := []string{"child", spec.ID, ph.Name, "--tier", tier, "--seed", fmt.Sprint(seed), "--out", out}
+		args := []string{"child", spec.ID, ph.Name, "--tier", tier, "--seed", fmt.Sprint(seed), "--out", out, "--shard", fmt.Sprint(shard), "--nshards", fmt.Sprint(nshards)}
 		timeout := ph.Timeout
 		if timeout == 0 {
 			timeout = 20 * time.Minute
@@ -125,6 +132,7 @@ func RunCheck(spec *CheckSpec, tier string, seed int64) int {
 			}
 		}
 		ctx, cancel := context.WithTimeout(context.Background(), timeout)
+		defer cancel()
 		var cmd *exec.Cmd
 		if ph.UlimitVKB > 0 {
 			sh := fmt.Sprintf("ulimit -v %d; exec \"$0\" \"$@\"", ph.UlimitVKB)
@@ -137,74 +145,106 @@ func RunCheck(spec *CheckSpec, tier string, seed int64) int {
 		cmd.Env = append(os.Environ(), ph.Env...)
 		cmd.Env = append(cmd.Env, "VERIF_ROOT="+Root)
 		if ph.Flavour == "race" {
-			cmd.Env = append(cmd.Env, "GORACE=halt_on_error=0 history_size=3 log_path="+raceGlob)
+			cmd.Env = append(cmd.Env, "GORACE=halt_on_error=0 history_size=3 log_path="+filepath.Join(workDir, ph.Name+".race"))
 		}
 		if ph.Flavour == "asan" {
 			cmd.Env = append(cmd.Env, "ASAN_OPTIONS=detect_leaks=0:abort_on_error=0:halt_on_error=1")
 		}
 		logf, _ := os.Create(logPath)
 		cmd.Stdout, cmd.Stderr = logf, logf
-		t0 := time.Now()
 		err := cmd.Run()
 		logf.Close()
-		phaseWall[ph.Name] = time.Since(t0).Seconds()
-		timedOut := ctx.Err() == context.DeadlineExceeded
-		cancel()
-
-		var res Result
+		co := childOut{err: err, timedOut: ctx.Err() == context.DeadlineExceeded, logPath: logPath, timeout: timeout, shard: shard}
 		if b, rerr := os.ReadFile(out); rerr == nil {
-			json.Unmarshal(b, &res)
+			json.Unmarshal(b, &co.res)
 		}
-		logTail := tailFile(logPath, 6000)
+		co.logTail = tailFile(logPath, 6000)
+		return co
+	}
 
-		if res.Done {
-			for k, v := range res.Counters {
-				merged.Counters[ph.Name+"."+k] = v
-				if k == "evaluations" {
-					merged.Counters["evaluations"] += v
-				}
-			}
-			for k, v := range res.Distinct {
-				merged.Distinct[ph.Name+"."+k] = v
-				if k == "nontrivial" && !ph.SecondPass {
-					headlineDistinct += v
-				}
-			}
-			if len(merged.Samples) < 2*maxSamples {
-				merged.Samples = append(merged.Samples, res.Samples...)
-			}
-			for _, v := range res.Violations {
-				addViolation(ph, v, nil, "")
-			}
-			if extra := res.NViolations - int64(len(res.Violations)); extra > 0 {
-				merged.NViolations += extra
-			}
-			for k, v := range res.Known {
-				merged.Known[k] += v
-				merged.KnownWhat[k] = res.KnownWhat[k]
-			}
-			for _, s := range res.Inconcl {
-				merged.Inconcl = append(merged.Inconcl, ph.Name+": "+s)
-			}
-			for _, s := range res.Notes {
-				merged.Notes = append(merged.Notes, ph.Name+": "+s)
-			}
-			if err != nil {
-				// finished its work but exited non-zero (e.g. race detector exit code): reports are counted below
-				merged.Notes = append(merged.Notes, fmt.Sprintf("%s: child exit: %v", ph.Name, err))
-			}
-		} else if timedOut {
-			merged.Inconcl = append(merged.Inconcl, fmt.Sprintf("%s: wall-clock watchdog (%s) fired; goroutine dump in %s", ph.Name, timeout, logPath))
-		} else {
-			// The child died without a result: fatal runtime error / sanitizer report / OOM / startup panic.
-			sig := "fatal:" + ph.Name + ":" + fatalSignature(logTail)
-			if strings.Contains(sig, "harness-setup") {
-				merged.Inconcl = append(merged.Inconcl, fmt.Sprintf("%s: child could not start: %v: %s", ph.Name, err, lastLines(logTail, 5)))
-			} else {
-				inflight := ReadInflight(workDir, ph.Name)
-				addViolation(ph, Violation{Sig: sig, What: fmt.Sprintf("child process died (%v) in phase %s; %d in-flight inputs recovered; log tail: %s", err, ph.Name, len(inflight), lastLines(logTail, 12))}, inflight, logTail)
+	for _, ph := range spec.Phases(tier) {
+		phaseNames = append(phaseNames, ph.Name)
+		os.Remove(inflightPath(workDir, ph.Name))
+		raceGlob := filepath.Join(workDir, ph.Name+".race")
+		if old, _ := filepath.Glob(raceGlob + "*"); len(old) > 0 {
+			for _, f := range old {
+				os.Remove(f)
 			}
 		}
+		nshards := ph.Shards
+		if nshards < 1 {
+			nshards = 1
+		}
+		t0 := time.Now()
+		outs := make([]childOut, nshards)
+		var swg sync.WaitGroup
+		for sh := 0; sh < nshards; sh++ {
+			swg.Add(1)
+			go func(sh int) { defer swg.Done(); outs[sh] = runChild(ph, sh, nshards) }(sh)
+		}
+		swg.Wait()
+		phaseWall[ph.Name] = time.Since(t0).Seconds()
+		var logTail string
+		for _, co := range outs {
+			res, err, timedOut, timeout, logPath := co.res, co.err, co.timedOut, co.timeout, co.logPath
+			logTail = co.logTail
+
+			if res.Done {
+				for k, v := range res.Counters {
+					if strings.HasPrefix(k, "max_") {
+						if v > merged.Counters[ph.Name+"."+k] {
+							merged.Counters[ph.Name+"."+k] = v
+						}
+					} else {
+						merged.Counters[ph.Name+"."+k] += v
+					}
+					if k == "evaluations" {
+						merged.Counters["evaluations"] += v
+					}
+				}
+				for k, v := range res.Distinct {
+					merged.Distinct[ph.Name+"."+k] += v
+					if k == "nontrivial" && !ph.SecondPass {
+						headlineDistinct += v
+					}
+				}
+				if len(merged.Samples) < 2*maxSamples {
+					merged.Samples = append(merged.Samples, res.Samples...)
+				}
+				for _, v := range res.Violations {
+					addViolation(ph, v, nil, "")
+				}
+				if extra := res.NViolations - int64(len(res.Violations)); extra > 0 {
+					merged.NViolations += extra
+				}
+				for k, v := range res.Known {
+					merged.Known[k] += v
+					merged.KnownWhat[k] = res.KnownWhat[k]
+				}
+				for _, s := range res.Inconcl {
+					merged.Inconcl = append(merged.Inconcl, ph.Name+": "+s)
+				}
+				for _, s := range res.Notes {
+					merged.Notes = append(merged.Notes, ph.Name+": "+s)
+				}
+				if err != nil {
+					// finished its work but exited non-zero (e.g. race detector exit code): reports are counted below
+					merged.Notes = append(merged.Notes, fmt.Sprintf("%s: child exit: %v", ph.Name, err))
+				}
+			} else if timedOut {
+				merged.Inconcl = append(merged.Inconcl, fmt.Sprintf("%s: wall-clock watchdog (%s) fired; goroutine dump in %s", ph.Name, timeout, logPath))
+			} else {
+				// The child died without a result: fatal runtime error / sanitizer report / OOM / startup panic.
+				sig := "fatal:" + ph.Name + ":" + fatalSignature(logTail)
+				if strings.Contains(sig, "harness-setup") {
+					merged.Inconcl = append(merged.Inconcl, fmt.Sprintf("%s: child could not start: %v: %s", ph.Name, err, lastLines(logTail, 5)))
+				} else {
+					inflight := ReadInflight(workDir, ph.Name)
+					addViolation(ph, Violation{Sig: sig, What: fmt.Sprintf("child process died (%v) in phase %s; %d in-flight inputs recovered; log tail: %s", err, ph.Name, len(inflight), lastLines(logTail, 12))}, inflight, logTail)
+				}
+			}
+
+		} // shards
 
 		// Race reports (counted from the log files; the exit code is not trusted).
 		if ph.Flavour == "race" {
